@@ -219,6 +219,22 @@ def bounded(tier, seed):
                                              "violated": v[:3]})
                         elif len(samples) < 3 and deep and len(chunks) == 3:
                             samples.append({"content": content.decode("latin-1"), "boundary": boundary.decode(), "chunk_lengths": [len(c) for c in chunks]})
+    # a TEXT field (no filename) whose content holds 2-, 3- and 4-byte UTF-8 characters and an embedded CRLF: every chunk
+    # edge inside a character, through the decoder, both helpers and both Request.form (text is decoded per part, never per chunk)
+    utext = "caf\u00e9 \u4f60\u597d \U0001f600\r\nzwei \u00fc\u00df \u20ac"
+    uparts = [("t", None, None, utext.encode("utf-8")), ("u", None, None, "\u00e9".encode("utf-8"))]
+    ubody = encode(uparts, b"bnd")
+    uch = [[ubody], [bytes([b]) for b in ubody]]
+    for cut in range(1, len(ubody)):
+        if tier == "thorough" or (ubody[cut] & 0xC0) == 0x80 or cut % 7 == 0:     # quick: every edge inside a character, and a sample
+            uch.append([ubody[:cut], ubody[cut:]])
+    for chunks in uch:
+        evals += 1
+        v = check_body(uparts, b"bnd", chunks, True)
+        distinct.add((b"bnd", b"utf8-text", len(chunks), tuple(len(c) for c in chunks)))
+        if v and len(failures) < 10:
+            failures.append({"inputs": {"parts": [[p[0], p[1], p[2], p[3].decode("latin-1")] for p in uparts], "boundary": "bnd",
+                                        "chunks": [c.decode("latin-1") for c in chunks]}, "violated": v[:3]})
     # zero parts, LF-only line breaks, unicode names
     for parts, nl in (([], b"\r\n"), ([("n", None, None, b"v")], b"\n"), ([("é", "ü.txt", "text/plain", b"\xff\x00")], b"\r\n")):
         body = encode(parts, b"bnd", nl=nl)
